@@ -71,8 +71,17 @@ Theorem C03_picture_body_roundtrip : forall o np running mpl total levw,
   exists pos', mb_loop fuel o np running mpl total levw st = rmap (pure_loop np running mpl levw fms st) (mkReader rest pos').
 Proof. exact mb_loop_roundtrip. Qed.
 
+(* not-coded macroblocks and the macroblocks after an early end of data carry the zero vector and no residual (`pure_loop`,
+   `pad_to` in the decoder): each of their blocks is an exact copy of the co-located reference block *)
+Theorem C03_zero_vector_copies : forall w h src px py t,
+  plane_ok w h src -> plane_ok w h t -> 1 <= w -> 1 <= h -> 0 <= px -> 0 <= py ->
+  exists t', gather_block src w px py (0, 0) t = Ok t' /\ plane_ok w h t' /\
+    forall x y, 0 <= x < w -> 0 <= y < h -> at_ t' x y = if in_block px py 8 8 x y then at_ src x y else at_ t x y.
+Proof. exact gather_block_zero_vector. Qed.
+
 Print Assumptions C03_vector_wrap.
 Print Assumptions C03_picture_body_roundtrip.
+Print Assumptions C03_zero_vector_copies.
 Print Assumptions C03_block_prediction.
 Print Assumptions C03_code_tables.
 Print Assumptions C03_chroma_vector_table.
